@@ -116,6 +116,9 @@ def run_case(case, ctx):
         ctx.classify(f)
     if case.get("exhaustive"):
         ctx.classify("exhaustive-sequence")
+    dp = run.decoy_problem()
+    if dp:
+        ctx.violation("file-outside-the-store-touched", f"{dp}; history: {[(o['op'], o.get('pid')) for o in case['ops']][:14]}", {"aspect": "escape"})
     if feats:
         ctx.nontrivial(trace)
         ctx.sample({"ops": [_brief(o) for o in case["ops"][:12]], "outcomes": [t[3] for t in trace[:12]],
